@@ -16,15 +16,25 @@ Definition has_byte (c : N) (s : bytes) : bool := existsb (N.eqb c) s.
 Definition cut_before (s : bytes) (c : N) : bytes :=
   match index_byte s c with Some i => firstn i s | None => s end.
 
+(* linear-time reverse (List.rev is quadratic once extracted; lines of 64 KiB
+   and more are part of the correspondence suite) *)
+Definition frev (s : bytes) : bytes := rev_append s [].
+
 (* strings.TrimRightFunc(s, unicode.IsSpace) *)
 Definition trim_right_space (s : bytes) : bytes :=
-  rev (trim_left_fuel_pats space_seqs_rev (length s) (rev s)).
+  frev (trim_left_fuel_pats space_seqs_rev (length s) (frev s)).
+
+(* Lib/Bytes.trim_space and has_suffix with the linear reverse (proved equal below) *)
+Definition ftrim_space (s : bytes) : bytes :=
+  let l := trim_left_fuel_pats space_seqs (length s) s in
+  frev (trim_left_fuel_pats space_seqs_rev (length l) (frev l)).
+Definition fhas_suffix (s p : bytes) : bool := has_prefix (frev s) (frev p).
 
 (* no leading / trailing white space (what TrimSpace leaves unchanged) *)
 Definition no_lead (s : bytes) : bool :=
   match first_prefix s space_seqs with None => true | Some _ => false end.
 Definition no_trail (s : bytes) : bool :=
-  match first_prefix (rev s) space_seqs_rev with None => true | Some _ => false end.
+  match first_prefix (frev s) space_seqs_rev with None => true | Some _ => false end.
 Definition trimmed (s : bytes) : bool := no_lead s && no_trail s.
 
 (* ASCII blank: space or tab *)
@@ -35,6 +45,13 @@ Definition all_blank (s : bytes) : bool := forallb blank s.
 Definition unlines (ls : list bytes) : bytes := concat (map (fun l => l ++ [10]) ls).
 
 (* ------------------------------------------------------------------ lemmas *)
+
+Lemma frev_rev s : frev s = rev s.
+Proof. unfold frev. symmetry. apply rev_alt. Qed.
+Lemma ftrim_space_eq s : ftrim_space s = trim_space s.
+Proof. unfold ftrim_space, trim_space. rewrite !frev_rev. reflexivity. Qed.
+Lemma fhas_suffix_eq s p : fhas_suffix s p = has_suffix s p.
+Proof. unfold fhas_suffix, has_suffix. rewrite !frev_rev. reflexivity. Qed.
 
 Lemma has_byte_app c a b : has_byte c (a ++ b) = has_byte c a || has_byte c b.
 Proof. apply existsb_app. Qed.
@@ -219,7 +236,7 @@ Qed.
 (* no_trail (w ++ v) = no_trail v for non-empty v and 7-bit w *)
 Lemma no_trail_app_ascii v w : v <> [] -> ascii7 w = true -> no_trail (w ++ v) = no_trail v.
 Proof.
-  intros Hv Hw. unfold no_trail. rewrite rev_app_distr.
+  intros Hv Hw. unfold no_trail. rewrite !frev_rev, rev_app_distr.
   destruct (rev v) as [|a rv] eqn:E.
   - exfalso. apply Hv. rewrite <- (rev_involutive v), E. reflexivity.
   - rewrite (first_prefix_app_ascii _ a rv (rev w) space_seqs_rev_high); [reflexivity|].
@@ -253,7 +270,7 @@ Proof.
     { rewrite no_lead_app_ascii; [exact Hl | discriminate | apply all_blank_ascii; exact H2]. }
     rewrite (tl_strip_fwd ws1 ((a :: v) ++ ws2) _ H1 Hl2) by (rewrite app_length; lia).
     rewrite rev_app_distr.
-    unfold no_trail in Ht. destruct (first_prefix (rev (a :: v)) space_seqs_rev) eqn:E; [discriminate|].
+    unfold no_trail in Ht. rewrite frev_rev in Ht. destruct (first_prefix (rev (a :: v)) space_seqs_rev) eqn:E; [discriminate|].
     rewrite (tl_strip_rev (rev ws2) (rev (a :: v)) _); [apply rev_involutive | | exact E | ].
     + rewrite all_blank_rev. exact H2.
     + rewrite rev_length, app_length. lia.
@@ -273,8 +290,8 @@ Qed.
 
 Lemma trim_right_strip x ws : all_blank ws = true -> no_trail x = true -> trim_right_space (x ++ ws) = x.
 Proof.
-  intros Hw Ht. unfold trim_right_space. rewrite rev_app_distr.
-  unfold no_trail in Ht. destruct (first_prefix (rev x) space_seqs_rev) eqn:E; [discriminate|].
+  intros Hw Ht. unfold trim_right_space. rewrite !frev_rev, rev_app_distr.
+  unfold no_trail in Ht. rewrite frev_rev in Ht. destruct (first_prefix (rev x) space_seqs_rev) eqn:E; [discriminate|].
   rewrite (tl_strip_rev (rev ws) (rev x) _); [apply rev_involutive | | exact E | ].
   - rewrite all_blank_rev. exact Hw.
   - rewrite rev_length, app_length. lia.
@@ -284,7 +301,7 @@ Qed.
 Lemma no_trail_last x c : c <? 128 = true -> blank c = false ->
   (c =? 10) || (c =? 11) || (c =? 12) || (c =? 13) = false -> no_trail (x ++ [c]) = true.
 Proof.
-  intros H7 Hb Hc. unfold no_trail. rewrite rev_app_distr. cbn [rev app].
+  intros H7 Hb Hc. unfold no_trail. rewrite !frev_rev, rev_app_distr. cbn [rev app].
   unfold blank in Hb. apply orb_false_iff in Hb as [Hb1 Hb2].
   apply orb_false_iff in Hc as [Hc Hc4]. apply orb_false_iff in Hc as [Hc Hc3].
   apply orb_false_iff in Hc as [Hc1 Hc2].
@@ -327,7 +344,7 @@ Qed.
 (* a suffix of a string without trailing space has no trailing space *)
 Lemma no_trail_suffix a b : no_trail (a ++ b) = true -> no_trail b = true.
 Proof.
-  unfold no_trail. rewrite rev_app_distr. intros H.
+  unfold no_trail. rewrite !frev_rev, rev_app_distr. intros H.
   destruct (first_prefix (rev b ++ rev a) space_seqs_rev) eqn:E; [discriminate|].
   rewrite (first_prefix_app_none _ _ _ E). reflexivity.
 Qed.
@@ -358,3 +375,14 @@ Proof.
   unfold unlines in *. cbn [map concat]. rewrite <- app_assoc. cbn [app].
   rewrite (split_byte_app_sep l 10 _ Hl), IH. reflexivity.
 Qed.
+
+(* ---- the same facts for the linear-time twins used by the models *)
+Lemma ftrim_space_nil : ftrim_space [] = [].
+Proof. reflexivity. Qed.
+Lemma ftrim_space_strip ws1 v ws2 : all_blank ws1 = true -> all_blank ws2 = true -> trimmed v = true ->
+  ftrim_space (ws1 ++ v ++ ws2) = v.
+Proof. rewrite ftrim_space_eq. apply trim_space_strip. Qed.
+Lemma ftrim_space_blank ws : all_blank ws = true -> ftrim_space ws = [].
+Proof. rewrite ftrim_space_eq. apply trim_space_blank. Qed.
+Lemma ftrim_space_trimmed v : trimmed v = true -> ftrim_space v = v.
+Proof. rewrite ftrim_space_eq. apply trim_space_trimmed. Qed.
